@@ -22,11 +22,21 @@ at once (so nothing can deadlock) and reported as an anomaly.
 Abstract configuration (JSON) -> the `cmd` / `cmds` context value, and -> the model request:
   P    = {"id", "code", "out", "err"[, "orep": n][, "erep": n][, "spawn": "missing"|"noexec"|"badquote"|"cwd"[, "cwdkey": id]]}
          code: 0, 1..255, or -N (killed by signal N); with "spawn": code 0, out/err ""
+         out / err: the BYTES the command writes, one character per byte (latin-1): ASCII text, or bytes a1..ff
+         (e.g. "\xff\xfe#7\n": not text in utf-8 / ascii)
          orep / erep: the command writes `out` / `err` that many times (outputs larger than a pipe buffer)
   cmd  : {"str": P} | {"map": M} | {"list": [{"str": P} | {"map": M}]}
-         M = {"run": {"str": P} | {"list": [P]}, "save": bool, "bytes": bool}
+         M = {"run": {"str": P} | {"list": [P]}, "save": bool, "bytes": bool, OPT}
   cmds : {"str": P} | {"map": A} | {"list": [{"str": P} | {"sub": [P]} | {"map": A}]}
-         A = {"run": {"str": P} | {"list": [{"str": P} | {"sub": [P]}]}, "save": bool, "bytes": bool}
+         A = {"run": {"str": P} | {"list": [{"str": P} | {"sub": [P]}]}, "save": bool, "bytes": bool, OPT}
+  OPT  = ["encoding": "utf-8"|"latin-1"|"ascii"][, "stdout": T][, "stderr": T][, "append": bool]
+  T    = "devnull" | "stdout" (stderr only) | {"file": k[, "bad": "isDir"|"parentFile"][, "pre": "old content"]}
+         file k is <dir>/out/f<k>; bad: the path is a directory / its parent directory is a regular file
+
+From it `cfg_value` makes the configuration VALUE with placeholders ("p<id>" for an instruction, "@f<k>" for an
+output path, "@cwd<k>" for a missing working directory); the model gets that value (its own parser reads it,
+lean/PypyrModel/Cmd.lean §0) plus the world (the outcome of each placeholder); the real step gets the value with
+the placeholders replaced by real command lines / paths (`realize`).
 """
 from __future__ import annotations
 
@@ -57,17 +67,16 @@ if wait == '1':
         if time.monotonic() - t0 > 120:
             log('T %s\n' % ident); os._exit(97)
         time.sleep(0.001)
-def text(spec):
-    # '<hex>' or 'R<n>:<hex>' = the text repeated n times (output larger than a pipe buffer)
+def data(spec):
+    # '<hex>' or 'R<n>:<hex>' = the bytes repeated n times (output larger than a pipe buffer)
     n = 1
     if spec[0] == 'R':
         n, spec = spec[1:].split(':')
-    return bytes.fromhex(spec).decode('ascii') * int(n)
+    return bytes.fromhex(spec) * int(n)
 if out != '-':
-    sys.stdout.write(text(out))
+    sys.stdout.buffer.write(data(out)); sys.stdout.buffer.flush()
 if err != '-':
-    sys.stderr.write(text(err))
-sys.stdout.flush(); sys.stderr.flush()
+    sys.stderr.buffer.write(data(err)); sys.stderr.buffer.flush()
 log('D %s\n' % ident)
 open(os.path.join(d, 'done.' + ident), 'w').close()
 c = int(code)
@@ -105,11 +114,19 @@ def eff_err(p):
     return p['err'] * p.get('erep', 1)
 
 
-def mp(p):
-    """P -> the model's Proc."""
-    sp = p.get('spawn')
-    return {'id': p['id'], 'spawn': SPAWN_KIND[sp] if sp else None, 'code': p['code'], 'out': eff_out(p),
-            'err': eff_err(p)}
+def pname(p):
+    return f"p{p['id']}"
+
+
+def decodable(p, enc):
+    """Are the bytes the command writes text under the encoding in force? (the codec library decides)"""
+    e = enc or 'utf-8'
+    try:
+        eff_out(p).encode('latin-1').decode(e)
+        eff_err(p).encode('latin-1').decode(e)
+        return True
+    except UnicodeDecodeError:
+        return False
 
 
 def spawn_label(p):
@@ -122,63 +139,162 @@ def spawn_label(p):
     return sp    # 'badquote' (a ValueError carries no command) / None
 
 
-def serial_model_cmds(cfg, conv=mp):
+def map_procs(m):
+    """All P of one expanded-syntax map, in declaration order."""
+    run = m['run']
+    if 'str' in run:
+        return [run['str']]
+    out = []
+    for e in run['list']:
+        out += [e] if 'id' in e else ([e['str']] if 'str' in e else list(e['sub']))
+    return out
+
+
+def commands(cfg):
+    """The harness's own reading of the abstract configuration (not through the model): one dict per command
+    object: entries = [[P, ...], ...] (a top-level instruction is a one-element entry; `single`: `run` is one
+    string), procs = all P in declaration order, save / text / enc / stdout / stderr / append."""
+    def mk(entries, single=False, sub=None, **kw):
+        d = {'entries': entries, 'single': single, 'sub': sub or [len(e) > 1 for e in entries],
+             'procs': [p for e in entries for p in e], 'save': False, 'text': False, 'bytes': False, 'enc': None,
+             'stdout': None, 'stderr': None, 'append': False}
+        d.update(kw)
+        return d
+
     def of_map(m):
         run = m['run']
-        ps = [conv(run['str'])] if 'str' in run else [conv(p) for p in run['list']]
+        if 'str' in run:
+            entries, single, sub = [[run['str']]], True, [False]
+        else:
+            entries, sub = [], []
+            for e in run['list']:
+                if 'id' in e:
+                    entries.append([e]); sub.append(False)
+                elif 'str' in e:
+                    entries.append([e['str']]); sub.append(False)
+                else:
+                    entries.append(list(e['sub'])); sub.append(True)
+            single = False
         save = bool(m.get('save', False))
-        return {'run': ps, 'save': save, 'text': save and not m.get('bytes', False)}
+        return mk(entries, single, sub, save=save, bytes=bool(m.get('bytes', False)),
+                  text=save and not m.get('bytes', False), enc=m.get('encoding'), stdout=m.get('stdout'),
+                  stderr=m.get('stderr'), append=bool(m.get('append', False)))
 
     def of_item(it):
         if 'str' in it:
-            return {'run': [conv(it['str'])], 'save': False, 'text': False}
+            return mk([[it['str']]], True, [False])
+        if 'sub' in it:       # Command([cmd]): a one-element run list holding the serial sub-list
+            return mk([list(it['sub'])], False, [True])
         return of_map(it['map'])
-    if 'list' in cfg:
-        return [of_item(it) for it in cfg['list']]
-    return [of_item(cfg)]
+    items = cfg['list'] if 'list' in cfg else [cfg]
+    return [of_item(it) for it in items]
 
 
-def async_model_cmds(cfg, conv=mp):
-    def entry(e):
-        return {'one': conv(e['str'])} if 'str' in e else {'serial': [conv(p) for p in e['sub']]}
+def bad_target(c):
+    """(label, kind) of the first output handle of the command that cannot be opened (stdout is opened first)."""
+    for k in ('stdout', 'stderr'):
+        t = c.get(k)
+        if isinstance(t, dict) and t.get('bad'):
+            return f"@f{t['file']}", t['bad']
+    return None
 
-    def of_map(m):
-        run = m['run']
-        save = bool(m.get('save', False))
-        r = {'single': conv(run['str'])} if 'str' in run else {'many': [entry(e) for e in run['list']]}
-        return {'run': r, 'save': save, 'text': save and not m.get('bytes', False)}
 
-    def of_item(it):
-        if 'str' in it:
-            return {'run': {'single': conv(it['str'])}, 'save': False, 'text': False}
-        if 'sub' in it:   # Command([cmd]): a one-element run list holding the serial sub-list
-            return {'run': {'many': [{'serial': [conv(p) for p in it['sub']]}]}, 'save': False, 'text': False}
-        return of_map(it['map'])
-    if 'list' in cfg:
-        return [of_item(it) for it in cfg['list']]
-    return [of_item(cfg)]
+def sync_decodes(c):
+    """subprocess.run decodes what it captured: text mode, or an encoding is given."""
+    return c['save'] and (c['text'] or bool(c['enc']))
+
+
+def async_decodes(c):
+    return c['save'] and c['text']
 
 
 def serial_decls(cfg):
     """Declaration order: [(P, save, text)] - written from the config, not through the model."""
-    out = []
-    for c in serial_model_cmds(cfg, conv=lambda p: p):
-        for p in c['run']:
-            out.append((p, c['save'], c['text']))
-    return out
+    return [(p, c['save'], c['text']) for c in commands(cfg) for p in c['procs']]
 
 
 def async_lanes(cfg):
-    """Lanes in declaration order: [([P], save, text)]."""
-    lanes = []
-    for c in async_model_cmds(cfg, conv=lambda p: p):
-        r = c['run']
-        if 'single' in r:
-            lanes.append(([r['single']], c['save'], c['text']))
+    """Lanes in declaration order: [([P], save, text)] (of the commands whose output handles can be opened)."""
+    return [(list(e), c['save'], c['text']) for c in commands(cfg) if not bad_target(c) for e in c['entries']]
+
+
+def file_targets(cfg):
+    """{label: T} of every output file named in the configuration."""
+    out = {}
+    for c in commands(cfg):
+        for k in ('stdout', 'stderr'):
+            t = c.get(k)
+            if isinstance(t, dict):
+                out[f"@f{t['file']}"] = t
+    return out
+
+
+def tval(t):
+    if t is None:
+        return None
+    if t == 'devnull':
+        return '/dev/null'
+    if t == 'stdout':
+        return '/dev/stdout'
+    return f"@f{t['file']}"
+
+
+def cfg_value(cfg):
+    """Abstract configuration -> the configuration value with placeholders."""
+    def of_map(m):
+        run = m['run']
+        if 'str' in run:
+            r = pname(run['str'])
         else:
-            for e in r['many']:
-                lanes.append(([e['one']] if 'one' in e else list(e['serial']), c['save'], c['text']))
-    return lanes
+            r = [(pname(e) if 'id' in e else (pname(e['str']) if 'str' in e else [pname(x) for x in e['sub']]))
+                 for e in run['list']]
+        d = {'run': r}
+        ps = map_procs(m)
+        if any(p.get('spawn') == 'cwd' for p in ps):
+            keys = {p.get('cwdkey') for p in ps}
+            if not all(p.get('spawn') == 'cwd' for p in ps) or len(keys) != 1 or None in keys:
+                raise ValueError('a missing cwd makes every command of its map unstartable')
+            d['cwd'] = f'@cwd{keys.pop()}'
+        if 'save' in m:
+            d['save'] = m['save']
+        if m.get('bytes'):
+            d['bytes'] = True
+        if m.get('encoding'):
+            d['encoding'] = m['encoding']
+        for k in ('stdout', 'stderr'):
+            if m.get(k) is not None:
+                d[k] = tval(m[k])
+        if 'append' in m:
+            d['append'] = m['append']
+        return d
+
+    def P(p):
+        if p.get('spawn') == 'cwd':
+            raise ValueError('a `cwd` fault outside an expanded-syntax map')
+        return pname(p)
+
+    def of_item(it):
+        if 'str' in it:
+            return P(it['str'])
+        if 'sub' in it:
+            return [P(x) for x in it['sub']]
+        return of_map(it['map'])
+    if 'list' in cfg:
+        return [of_item(it) for it in cfg['list']]
+    return of_item(cfg)
+
+
+def world_of(cfg, is_async):
+    """The scripted outcome of every placeholder, for the model."""
+    procs = []
+    for c in commands(cfg):
+        for p in c['procs']:
+            sp = p.get('spawn')
+            procs.append({'name': pname(p), 'id': p['id'], 'spawn': SPAWN_KIND[sp] if sp else None, 'code': p['code'],
+                          'out': eff_out(p), 'err': eff_err(p),
+                          'decodeFails': (not sp) and not decodable(p, c['enc'])})
+    paths = [{'path': lab, 'bad': t.get('bad'), 'content': t.get('pre')} for lab, t in sorted(file_targets(cfg).items())]
+    return {'procs': procs, 'paths': paths}
 
 
 # --------------------------------------------------------------------------
@@ -193,6 +309,7 @@ class Scratch:
             f.write(CHILD)
         self.wait = '1' if wait else '0'
         self.shell = shell
+        self.paths = {}        # label -> real path
 
     def cmdline(self, p):
         sp = p.get('spawn')
@@ -208,72 +325,79 @@ class Scratch:
                 os.chmod(path, 0o644)
                 return path + ' --arg'
             return os.path.join(self.dir, f"bq.{p['id']}") + ' "no closing quotation'
-        hx = lambda s, n: (f'R{n}:' if n != 1 else '') + s.encode('ascii').hex() if s and n else '-'
+        hx = lambda s, n: (f'R{n}:' if n != 1 else '') + s.encode('latin-1').hex() if s and n else '-'
         line = (f"{sys.executable} -S {self.script} {self.dir} {p['id']} {p['code']} {self.wait} "
                 f"{hx(p['out'], p.get('orep', 1))} {hx(p['err'], p.get('erep', 1))}")
         # under a shell `exec` makes the interpreter replace the shell: one pid per command
         return 'exec ' + line if self.shell else line
 
     def expected_cmd(self, p):
-        line = self.cmdline(p)
+        # a `cwd` fault is an ordinary command line (it is the directory that is missing)
+        line = self.cmdline({**p, 'spawn': None} if p.get('spawn') == 'cwd' else p)
         return line if self.shell else shlex.split(line)
+
+    def prepare_files(self, cfg):
+        """Create the world the output paths live in. A good path is <dir>/out/f<k> (the directory `out` does
+        not exist yet: the code creates it); isDir: the path is a directory; parentFile: <dir>/pf<k>/f<k>
+        where <dir>/pf<k> is a regular file."""
+        for lab, t in file_targets(cfg).items():
+            k = t['file']
+            if t.get('bad') == 'parentFile':
+                parent = os.path.join(self.dir, f'pf{k}')
+                open(parent, 'w').close()
+                path = os.path.join(parent, f'f{k}')
+            else:
+                path = os.path.join(self.dir, 'out', f'f{k}')
+                if t.get('bad') == 'isDir':
+                    os.makedirs(path)
+                elif t.get('pre') is not None:
+                    os.makedirs(os.path.dirname(path), exist_ok=True)
+                    with open(path, 'wb') as f:
+                        f.write(t['pre'].encode('latin-1'))
+            self.paths[lab] = path
+
+    def files_obs(self, cfg):
+        out = {}
+        for lab, t in file_targets(cfg).items():
+            path = self.paths.get(lab)
+            if path and not t.get('bad') and os.path.isfile(path):
+                with open(path, 'rb') as f:
+                    out[lab] = f.read().decode('latin-1')
+        return out
 
     def close(self):
         shutil.rmtree(self.dir, ignore_errors=True)
 
 
-def map_procs(m):
-    """All P of one expanded-syntax map, in declaration order."""
-    run = m['run']
-    if 'str' in run:
-        return [run['str']]
-    out = []
-    for e in run['list']:
-        out += [e] if 'id' in e else ([e['str']] if 'str' in e else list(e['sub']))
-    return out
+def realize(value, sc: Scratch, procs):
+    """The configuration value with every placeholder replaced by the real thing."""
+    by_name = {pname(p): p for p in procs.values()}
+
+    def go(v):
+        if isinstance(v, str):
+            if v in by_name:
+                p = by_name[v]
+                return sc.cmdline({**p, 'spawn': None} if p.get('spawn') == 'cwd' else p)
+            if v.startswith('@f'):
+                return sc.paths[v]
+            if v.startswith('@cwd'):
+                return os.path.join(sc.dir, 'nocwd.' + v[4:])
+            return v
+        if isinstance(v, list):
+            return [go(x) for x in v]
+        if isinstance(v, tuple):
+            return tuple(go(x) for x in v)
+        if isinstance(v, dict):
+            return {k: go(x) for k, x in v.items()}
+        return v
+    return go(value)
 
 
-def real_config(cfg, sc: Scratch):
-    def P(p):
-        if p.get('spawn') == 'cwd':
-            raise ValueError('a `cwd` fault outside an expanded-syntax map')
-        return sc.cmdline(p)
-
-    def of_map(m):
-        run = m['run']
-        ps = map_procs(m)
-        cwd = None
-        if any(p.get('spawn') == 'cwd' for p in ps):
-            keys = {p.get('cwdkey') for p in ps}
-            if not all(p.get('spawn') == 'cwd' for p in ps) or len(keys) != 1 or None in keys:
-                raise ValueError('a missing cwd makes every command of its map unstartable')
-            cwd = os.path.join(sc.dir, f'nocwd.{keys.pop()}')
-            P_ = lambda p: sc.cmdline({**p, 'spawn': None})     # an ordinary command; it is the cwd that is missing
-        else:
-            P_ = P
-        if 'str' in run:
-            r = P_(run['str'])
-        else:
-            r = [(P_(e) if 'id' in e else (P_(e['str']) if 'str' in e else [P_(x) for x in e['sub']]))
-                 for e in run['list']]
-        d = {'run': r}
-        if cwd:
-            d['cwd'] = cwd
-        if 'save' in m:
-            d['save'] = m['save']
-        if m.get('bytes'):
-            d['bytes'] = True
-        return d
-
-    def of_item(it):
-        if 'str' in it:
-            return P(it['str'])
-        if 'sub' in it:
-            return [P(x) for x in it['sub']]
-        return of_map(it['map'])
-    if 'list' in cfg:
-        return [of_item(it) for it in cfg['list']]
-    return of_item(cfg)
+def real_config(cfg, sc: Scratch, procs=None):
+    if procs is None:
+        procs = {p['id']: p for c in commands(cfg) for p in c['procs']}
+    sc.prepare_files(cfg)
+    return realize(cfg_value(cfg), sc, procs)
 
 
 def ident_of(cmd):
@@ -291,7 +415,7 @@ def out_obs(v):
     if v is None:
         return None
     if isinstance(v, bytes):
-        return {'b': v.decode('ascii', 'replace')}
+        return {'b': v.decode('latin-1')}
     if isinstance(v, str):
         return {'t': v}
     return {'?': repr(v)}
@@ -307,7 +431,8 @@ def result_obs(r, sc, procs):
         return {'id': i, 'code': r.returncode, 'stdout': out_obs(r.stdout), 'stderr': out_obs(r.stderr),
                 'cmd_ok': r.cmd == sc.expected_cmd(procs[i])}
     if isinstance(r, BaseException):
-        return {'exc': spawn_err_obs(r, sc) or {'type': type(r).__name__, 'msg': str(r)[:200]}}
+        return {'exc': spawn_err_obs(r, sc) or decode_err_obs(r) or open_err_obs(r, sc)
+                or {'type': type(r).__name__, 'msg': str(r)[:200]}}
     return {'?': repr(r)[:200]}
 
 
@@ -326,6 +451,30 @@ def spawn_err_obs(e, sc):
     return None
 
 
+_UNDEC = re.compile(rb'#(\d+)')
+
+
+def decode_err_obs(e):
+    """The UnicodeDecodeError of a command whose captured output is not text -> {'decode': id, 'type'}; the
+    undecodable outputs the harness scripts carry `#<id>`."""
+    if isinstance(e, UnicodeDecodeError):
+        m = _UNDEC.search(bytes(e.object))
+        if m:
+            return {'decode': int(m.group(1)), 'type': 'UnicodeDecodeError'}
+    return None
+
+
+def open_err_obs(e, sc):
+    """The OSError of an output file that cannot be opened -> {'open': label, 'type': name}."""
+    from pypyr.errors import get_error_name
+    if isinstance(e, OSError) and e.filename is not None:
+        fn = os.fsdecode(e.filename)
+        for lab, path in sc.paths.items():
+            if fn == path or fn == os.path.dirname(path) and os.path.basename(os.path.dirname(path)).startswith('pf'):
+                return {'open': lab, 'type': get_error_name(e)}
+    return None
+
+
 def err_obs(e, sc, procs):
     from pypyr.errors import get_error_name
     name = get_error_name(e)
@@ -335,7 +484,7 @@ def err_obs(e, sc, procs):
             return {'id': i, 'code': e.returncode, 'type': name, 'cmd_ok': e.cmd == sc.expected_cmd(procs[i])}
         except Exception:
             pass
-    sp = spawn_err_obs(e, sc)
+    sp = spawn_err_obs(e, sc) or decode_err_obs(e) or open_err_obs(e, sc)
     if sp:
         return sp
     return {'type': name, 'msg': str(e)[:300]}
@@ -367,11 +516,21 @@ def quiet_logging():
 
 
 def all_procs_serial(cfg):
-    return {p['id']: p for p, _, _ in serial_decls(cfg)}
+    return {p['id']: p for c in commands(cfg) for p in c['procs']}
 
 
-def all_procs_async(cfg):
-    return {p['id']: p for ps, _, _ in async_lanes(cfg) for p in ps}
+all_procs_async = all_procs_serial
+
+
+PREV_LIST = ['result of an earlier step', {'returncode': 0}]
+
+
+def prev_value(case):
+    """What context['cmdOut'] holds before the step: (present, value)."""
+    k = case.get('prev', 'str')
+    if k == 'absent':
+        return False, None
+    return True, (list(PREV_LIST) if k == 'list' else SENTINEL)
 
 
 # --------------------------------------------------------------------------
@@ -381,12 +540,17 @@ def all_procs_async(cfg):
 def run_serial(case):
     import importlib
     from pypyr.context import Context
+    from . import common
     quiet_logging()
     shell = case['step'] == 'shell'
     sc = Scratch(wait=False, shell=shell)
     try:
         procs = all_procs_serial(case['cfg'])
-        ctx = Context({'cmd': real_config(case['cfg'], sc), 'cmdOut': SENTINEL})
+        has_prev, prev = prev_value(case)
+        d = {'cmd': real_config(case['cfg'], sc, procs)}
+        if has_prev:
+            d['cmdOut'] = prev
+        ctx = Context(d)
         step = importlib.import_module('pypyr.steps.' + case['step'])
         err = None
         try:
@@ -394,17 +558,21 @@ def run_serial(case):
         except Exception as e:
             err = err_obs(e, sc, procs)
         ev, _ = read_log(sc)
-        co = ctx.get('cmdOut', '<<deleted>>')
-        if isinstance(co, str) and co == SENTINEL:
-            cmd_out, results = None, []
-        elif isinstance(co, list):
-            results = [result_obs(r, sc, procs) for r in co]
-            cmd_out = {'many': results}
+        if 'cmdOut' not in ctx:
+            after, cmd_out, results = {'prior': {'absent': True}}, None, []
         else:
-            results = [result_obs(co, sc, procs)]
-            cmd_out = {'single': results[0]}
+            co = ctx['cmdOut']
+            if has_prev and co is prev:
+                # not written by the step: what was there before is still there
+                after, cmd_out, results = {'prior': {'val': common.enc(co)}}, None, []
+            elif isinstance(co, list):
+                results = [result_obs(r, sc, procs) for r in co]
+                after = cmd_out = {'many': results}
+            else:
+                results = [result_obs(co, sc, procs)]
+                after = cmd_out = {'single': results[0]}
         return {'started': [i for k, i in ev if k == 's'], 'err': err, 'results': results, 'cmdOut': cmd_out,
-                'log': ev}
+                'after': after, 'files': sc.files_obs(case['cfg']), 'log': ev}
     finally:
         sc.close()
 
@@ -574,7 +742,7 @@ def run_async(case, plan):
     finished = threading.Event()
     try:
         procs = all_procs_async(case['cfg'])
-        ctx = Context({'cmds': real_config(case['cfg'], sc), 'cmdOut': SENTINEL})
+        ctx = Context({'cmds': real_config(case['cfg'], sc, procs), 'cmdOut': SENTINEL})
         step = importlib.import_module('pypyr.steps.' + case['step'])
         rel = Releaser(sc, plan, sorted(procs), finished)
         rel.start()
@@ -610,10 +778,95 @@ def run_async(case, plan):
                 'err_type': err_type, 'errors': errors,
                 'cmdOut': slots_obs(ctx.get('cmdOut', '<<deleted>>'), sc, procs),
                 'running_at_return': running_at_return,
+                'files': sc.files_obs(case['cfg']),
                 'anomalies': rel.anomalies}
     finally:
         finished.set()
         sc.close()
+
+
+# --------------------------------------------------------------------------
+# the constructors alone: configuration value -> Command objects (no process is started)
+# --------------------------------------------------------------------------
+
+CTOR_TAGS = (('config is wrong', 'bad-item'), ('config should be either', 'bad-config'),
+             ('must have a value for', 'run-empty'), ("doesn't exist for", 'run-missing'),
+             ("You can't set `stdout` or `stderr`", 'save-with-redirect'))
+
+
+def ctor_err_obs(e):
+    from pypyr.errors import get_error_name
+    name = get_error_name(e).rsplit('.', 1)[-1]
+    msg = str(e)
+    if name == 'KeyNotInContextError' and 'context[' in msg:
+        return {'name': name, 'msg': 'config-missing'}
+    if name == 'KeyInContextHasNoValueError' and msg.startswith('context['):
+        return {'name': name, 'msg': 'config-none'}
+    for needle, tag in CTOR_TAGS:
+        if needle in msg:
+            return {'name': name, 'msg': tag}
+    return {'name': name, 'msg': '?' + msg[:80]}
+
+
+def target_obs(v, is_err):
+    if not v:
+        return None
+    if v == '/dev/null':
+        return 'devnull'
+    if is_err and v == '/dev/stdout':
+        return 'stdout'
+    return {'file': v}
+
+
+def norm_cmd(c):
+    if isinstance(c, (list, tuple)):
+        return [norm_cmd(x) for x in c]
+    return c
+
+
+def ctor_obs(value, present, is_async, shell):
+    """CmdStep(...) / AsyncCmdStep(...) on a context holding the configuration value: the Command objects it
+    builds (their attributes), or the exception it raises."""
+    from pypyr.context import Context
+    quiet_logging()
+    key = 'cmds' if is_async else 'cmd'
+    ctx = Context({'other': 1, **({key: value} if present else {})})
+    try:
+        if is_async:
+            from pypyr.steps.dsl.cmdasync import AsyncCmdStep
+            import pypyr.aio.subproc as aio
+            step = AsyncCmdStep(name='pypyr.steps.' + ('shells' if shell else 'cmds'), context=ctx, is_shell=shell)
+            cmds, dflt_enc = list(step.commands), aio.DEFAULT_ENCODING
+        else:
+            from pypyr.steps.dsl.cmd import CmdStep
+            step = CmdStep(name='pypyr.steps.' + ('shell' if shell else 'cmd'), context=ctx, is_shell=shell)
+            cmds, dflt_enc = list(step.commands), None
+    except Exception as e:
+        return {'err': ctor_err_obs(e)}
+    out = []
+    for c in cmds:
+        so, se = (None, None) if c.is_save else (c.stdout, c.stderr)     # aio: PIPE when saving
+        out.append({'run': norm_cmd(c.cmd), 'shell': bool(c.is_shell), 'cwd': c.cwd, 'save': bool(c.is_save),
+                    'text': bool(c.is_text), 'encoding': c.encoding,
+                    'stdout': target_obs(so, False), 'stderr': target_obs(se, True), 'append': bool(c.append)})
+    # `encoding if encoding else <default>`: None for the synchronous Command, the locale's for the asynchronous one
+    return {'ok': out, 'default_encoding': dflt_enc}
+
+
+def ctor_run_obs(value, present, step_name):
+    """The whole step on a configuration the constructor refuses: the error, and cmdOut afterwards."""
+    import importlib
+    from pypyr.context import Context
+    quiet_logging()
+    key = 'cmds' if step_name in ('cmds', 'shells') else 'cmd'
+    ctx = Context({'cmdOut': SENTINEL, **({key: value} if present else {})})
+    step = importlib.import_module('pypyr.steps.' + step_name)
+    try:
+        step.run_step(ctx)
+        err = None
+    except Exception as e:
+        err = ctor_err_obs(e)
+    return {'err': err, 'cmdOut_untouched': ctx.get('cmdOut') is SENTINEL}
 
 
 # --------------------------------------------------------------------------
